@@ -278,6 +278,7 @@ func (x *Exec) loopEnter(st *State, fn *ssa.Function, head *ssa.BasicBlock, ls *
 // havocLoopClass: inside a loop only objects the function may modify (its own modifies clause)
 // and objects allocated since function entry can change.
 func (x *Exec) havocLoopClass(st, old *State, class string, allocBefore *T) {
+	class = canon(class)
 	s := x.classSorts[class]
 	if s == nil {
 		return
